@@ -97,6 +97,7 @@ def gen_cases(tier, seed):
                 "slicer": ["woi", "noi", "ppi"][i % 3],
                 "dim0": str(rng.choice(["weibull", "expweib-wlsq", "expweib-lsq-array", "lognormal"])),
                 "history": ["first", "refit-permuted", "refit-other"][(i // 3 + int(rng.integers(1))) % 3],  # every slicer with every history
+                "template": ["none", "first-fixed", "none", "first-fixed", "chained-mu-on-sigma"][(i // 9) % 5],  # ... with every conditional template
                 "sub": int(rng.integers(1 << 31)),
                 "cost": 2,
             }
@@ -106,6 +107,10 @@ def gen_cases(tier, seed):
 
 def _power3(x, a=1.0, b=0.5, c=0.5):
     return a + b * x**c
+
+
+def _mu_chained(x, a, b, s_of_x):
+    return a + b * np.sqrt(x) + 10.0 * s_of_x(x)  # (a strong coupling: a stale conditioner moves mu visibly)
 
 
 def _exp3(x, a=0.1, b=0.3, c=-0.2):
@@ -118,7 +123,7 @@ def _lin(x, a=1.0, b=0.5):
 
 def _data(case, rng, n):
     hs = rng.weibull(1.5, n) * 2.2 + 0.05
-    first_fixed = int(case["sub"]) % 5 in (1, 3)  # the conditional templates fix their first parameter: the data agree with it
+    first_fixed = case.get("template") == "first-fixed"  # the conditional templates fix their first parameter: the data agree with it
     mu = 0.9 + 0.55 * hs**0.45 if not first_fixed else np.full(n, 1.6)
     sig = 0.06 + 0.2 * np.exp(-0.3 * hs)
     tz = np.exp(mu + sig * rng.standard_normal(n))
@@ -171,8 +176,12 @@ def _build(case, mk_slicer, warr):
         dist0, fd0 = ExponentiatedWeibullDistribution(f_delta=1.2), {"method": "lsq", "weights": None}
     bounds3 = [(0, None), (0, None), (None, None)]
     # which parameters of a conditional template are fixed: none, the FIRST of the family's parameter order, the last
-    fixed_kind = ["none", "first-fixed", "none", "first-fixed", "none"][int(case["sub"]) % 5]
-    if fixed_kind == "first-fixed":
+    fixed_kind = "first-fixed" if case.get("template") == "first-fixed" else "none"
+    if case.get("template") == "chained-mu-on-sigma":
+        # a chained pair: mu takes the sigma dependence function as a parameter (and precedes it in the parameter order)
+        sig_dep = DependenceFunction(_exp3, bounds3)
+        d1 = {"distribution": LogNormalDistribution(), "conditional_on": 0, "intervals": mk_slicer(), "parameters": {"mu": DependenceFunction(_mu_chained, s_of_x=sig_dep), "sigma": sig_dep}}
+    elif fixed_kind == "first-fixed":
         d1 = {"distribution": LogNormalDistribution(f_mu=1.6), "conditional_on": 0, "intervals": mk_slicer(), "parameters": {"sigma": DependenceFunction(_exp3, bounds3)}}
     else:
         d1 = {"distribution": LogNormalDistribution(), "conditional_on": 0, "intervals": mk_slicer(), "parameters": {"mu": DependenceFunction(_power3, bounds3), "sigma": DependenceFunction(_exp3, bounds3)}}
@@ -275,7 +284,7 @@ def run_case(case, ctx):
     ctx.cls("dim0", case["dim0"])
     ctx.cls("history", case["history"])
     ctx.cls("n_dim", case["n_dim"])
-    ctx.cls("conditional-template", ["none", "first-fixed", "none", "first-fixed", "none"][int(case["sub"]) % 5])
+    ctx.cls("conditional-template", case.get("template", "none"))
     ctx.sig = str({k: v for k, v in case.items() if k not in ("id", "cost")})
     info = {"slicer": case["slicer"], "slicer_cfg": {k: (v if not hasattr(v, "item") else v.item()) for k, v in cfg.items()}, "rows": n, "order": case["order"], "round": case["round"], "dim0": case["dim0"]}
     grid = np.linspace(0.3, float(np.quantile(X[:, 0], 0.98)), 9)
